@@ -93,12 +93,14 @@ structure Guards where
   alignType : Bool := false    -- general.alignment not uint32 (failed type assertion)
   alignZero : Bool := false    -- general.alignment = 0 (integer divide by zero)
   negSeek : Bool := false      -- tensor size >= 2^63 (backward seek: end offset before start)
+  accessorType : Bool := false -- typed metadata accessors (`keyValue[T]`): a key stored with another type is
+                               -- treated as missing instead of failing the type assertion
 deriving Repr, DecidableEq
 
 def Guards.pinned : Guards := {}
-def Guards.all : Guards := ⟨true, true, true, true, true, true, true, true, true, true⟩
+def Guards.all : Guards := ⟨true, true, true, true, true, true, true, true, true, true, true⟩
 /-- the variant /repo's working tree implements (checked on every run by the L1 correspondence):
-    all ten sites were repaired by `fix:` commits (KNOWN_FINDINGS.jsonl, C10 F11a–F11j) -/
+    all eleven sites were repaired by `fix:` commits (KNOWN_FINDINGS.jsonl, C10 F11a–F11k) -/
 def Guards.tree : Guards := Guards.all
 
 structure Cfg where
@@ -362,6 +364,50 @@ def decode (bs : Bytes) (maxArraySize : Int) (budget : Option Nat := none)
     (g : Guards := Guards.tree) : Except Err Decoded :=
   decodeFrom ⟨bs, 0⟩ maxArraySize budget g
 
+/-! ## typed metadata accessors (`fs/ggml/ggml.go keyValue[T]` and the `KV.*` helpers) -/
+
+/-- ASCII text as bytes (kernel-reducible) -/
+def bytesOf (s : String) : Bytes := s.toList.map (fun c => c.toNat.toUInt8)
+
+/-- `kv.String(key, dflt)` for a key that already carries its prefix.  Upstream: `kv[key].(string)` unchecked. -/
+def kvString (g : Guards) (kvs : List (Bytes × Val)) (key dflt : Bytes) : Except Err Bytes :=
+  match kvLookup kvs key with
+  | none => .ok dflt
+  | some (.str s) => .ok s
+  | some _ => if g.accessorType then .ok dflt else .error (.panic "interface-conversion")
+
+/-- `kv.Uint(key, dflt)` (uint32) -/
+def kvUint (g : Guards) (kvs : List (Bytes × Val)) (key : Bytes) (dflt : Nat) : Except Err Nat :=
+  match kvLookup kvs key with
+  | none => .ok dflt
+  | some (.scalar 4 v) => .ok v
+  | some _ => if g.accessorType then .ok dflt else .error (.panic "interface-conversion")
+
+def kvArchitecture (g : Guards) (kvs : List (Bytes × Val)) : Except Err Bytes :=
+  kvString g kvs (bytesOf "general.architecture") (bytesOf "unknown")
+
+def kvKind (g : Guards) (kvs : List (Bytes × Val)) : Except Err Bytes :=
+  kvString g kvs (bytesOf "general.type") (bytesOf "unknown")
+
+/-- the layer's media type as `ggufLayers` picks it: 0 model, 1 adapter, 2 projector -/
+def mediaType (g : Guards) (kvs : List (Bytes × Val)) : Except Err Nat := do
+  let kind ← kvKind g kvs
+  if kind = bytesOf "adapter" then pure 1
+  else do
+    let arch ← kvArchitecture g kvs
+    if (kvLookup kvs (arch ++ bytesOf ".vision.block_count")).isSome then pure 2
+    else do
+      let kind ← kvKind g kvs
+      pure (if kind = bytesOf "projector" then 2 else 0)
+
+/-- what the rest of create reads from each decoded model: `detectChatTemplate` (ChatTemplate), `createModel`
+    (Architecture, ParameterCount — always a uint64 set by the decoder —, FileType) -/
+def createAccessors (g : Guards) (kvs : List (Bytes × Val)) : Except Err Unit := do
+  let _ ← kvString g kvs (bytesOf "tokenizer.chat_template") []
+  let _ ← kvArchitecture g kvs
+  let _ ← kvUint g kvs (bytesOf "general.file_type") 0
+  pure ()
+
 /-! ## `server/create.go ggufLayers`: an uploaded file may hold several models back to back -/
 
 /-- one layer `ggufLayers` produces -/
@@ -369,6 +415,7 @@ structure GLayer where
   start : Nat          -- file offset of the section copied into the layer
   size : Nat           -- bytes in the layer
   whole : Bool         -- the uploaded blob itself is reused (the decode ended at the file size and started at 0)
+  media : Nat          -- 0 model, 1 adapter, 2 projector
   d : Decoded
 deriving Repr, DecidableEq
 
@@ -389,10 +436,13 @@ def ggufLayersLoop (bs : Bytes) (budget : Option Nat) (g : Guards) (maxSeek : Na
         -- the upload is an os.File: lseek refuses offsets above the file system's limit (EINVAL); with backward
         -- seeks rejected the positions only grow, so the largest one the decode asked for is its end offset
         if n > maxSeek then some (.error (.invalid "seek beyond the file system's limit")) else
+        match mediaType g d.kvs with
+        | .error e => some (.error e)
+        | .ok media =>
         let whole : Bool := n = bs.length ∧ offset = 0
         -- otherwise NewLayer(io.NewSectionReader(blob, offset, n)): n bytes from offset, cut at the end of the file
         let size := if whole then bs.length else min n (bs.length - offset)
-        ggufLayersLoop bs budget g maxSeek fuel n (acc ++ [⟨offset, size, whole, d⟩])
+        ggufLayersLoop bs budget g maxSeek fuel n (acc ++ [⟨offset, size, whole, media, d⟩])
     else some (.ok acc)
 
 /-- `detectContentType` on the first 512 bytes (a file shorter than 4 bytes is read zero-extended) + the loop;
@@ -403,6 +453,18 @@ def ggufLayers (bs : Bytes) (budget : Option Nat := none) (g : Guards := Guards.
   let magic := leVal ((bs.take 4) ++ List.replicate (4 - (bs.take 4).length) 0)
   if magic ≠ magicLE ∧ magic ≠ magicBE then some (.error (.invalid "only gguf supported"))
   else ggufLayersLoop bs budget g maxSeek bs.length 0 []
+
+/-- everything create does with the decoded metadata of an upload: `ggufLayers`, then the accessors
+    `detectChatTemplate` / `createModel` call on every layer.  `none` = never answers. -/
+def createUpload (bs : Bytes) (budget : Option Nat := none) (g : Guards := Guards.tree) (maxSeek : Nat := two63 - 1) :
+    Option (Except Err (List GLayer)) :=
+  match ggufLayers bs budget g maxSeek with
+  | none => none
+  | some (.error e) => some (.error e)
+  | some (.ok ls) =>
+    match ls.mapM (fun l => createAccessors g l.d.kvs) with
+    | .error e => some (.error e)
+    | .ok _ => some (.ok ls)
 
 /-! ## encoder -/
 
